@@ -205,7 +205,25 @@ def canon_effects(effects) -> str:
                 out.append(f"maybe({canon_effects(e[1])})")
             else:
                 out.append(" ".join(str(x) for x in e))
-        return out
+        # adjacent stores of plain values (no call, no read of an attribute stored in the same run) into different
+        # attributes are independent: their order is not behaviour
+        res, run = [], []
+
+        def flush():
+            targets = [r.split(" ", 2)[1] for r in run]
+            independent = len(set(targets)) == len(targets) and not any(t in r.split(" ", 2)[2] for t in targets for r in run if len(r.split(" ", 2)) > 2)
+            res.extend(sorted(run) if independent else run)
+            run.clear()
+
+        for item in out:
+            parts = item.split(" ", 2)
+            if parts[0] == "store" and len(parts) == 3 and "(" not in parts[2] and "[" not in parts[1]:
+                run.append(item)
+            else:
+                flush()
+                res.append(item)
+        flush()
+        return res
 
     if not universe:
         return "; ".join(flat(effects, {}))
